@@ -5,8 +5,85 @@ package shimagent
 // Contracts for the verification framework in /verif (comment-only file,
 // compiled only with -tags verif; see /verif/DESIGN.md).
 
+//@ # ---------------------------------------------------------------- shared: object invariant and lock discipline (C08, C11, C20)
+//@ # set once by newShimAgent / New
+//@ immutable Server.conn, Server.agent, Server.conds, Server.noUpstreamSSHCACert, Server.mu
+//@ # C11: shared state is touched only with s.mu held; the single upstream connection (agent, conn) only exclusively
+//@ protected Server.certs, Server.upstreamSSHCACertCache, Server.locked by Server.mu
+//@ protected exclusive Server.agent, Server.conn by Server.mu
+
+//@ ghost func inv(s *Server) bool = s.agent != nil && s.conn != nil && s.certs != nil && s.upstreamSSHCACertCache != nil
+//@ ghost func unheld(s *Server) bool = mstate(addrof(s.mu)) == 0
+//@ ghost func wheld(s *Server) bool = mstate(addrof(s.mu)) == 1
+
+//@ # ---------------------------------------------------------------- C08: the lock flag
+//@ func (*Server).Close(s)
+//@   requires s != nil && inv(s) && unheld(s)
+//@   modifies mstate(addrof(s.mu))
+//@   ensures unheld(s)
+//@   ensures [locked-refuses] old(s.locked) ==> (result == errAgentLocked && calls(Closer.Close) == old(calls(Closer.Close)))
+//@   ensures !old(s.locked) ==> (calls(Closer.Close) == old(calls(Closer.Close)) + 1 && result == ret(Closer.Close, old(calls(Closer.Close)), 0))
+
+//@ func (*Server).Add(s, key)
+//@   requires s != nil && inv(s) && unheld(s)
+//@   modifies mstate(addrof(s.mu))
+//@   ensures unheld(s)
+//@   ensures [locked-refuses] old(s.locked) ==> (err == errAgentLocked && calls(Agent.Add) == old(calls(Agent.Add)))
+//@   ensures [pass-through] !old(s.locked) ==> (calls(Agent.Add) == old(calls(Agent.Add)) + 1 && arg(Agent.Add, old(calls(Agent.Add)), 1) == key &&
+//@     arg(Agent.Add, old(calls(Agent.Add)), 0) == s.agent && err == ret(Agent.Add, old(calls(Agent.Add)), 0))
+
+//@ func (*Server).Lock(s, passphrase)
+//@   requires s != nil && inv(s) && unheld(s)
+//@   modifies mstate(addrof(s.mu)), s.locked
+//@   ensures unheld(s)
+//@   ensures [locked-refuses] old(s.locked) ==> (result == errAgentLocked && s.locked && calls(Agent.Lock) == old(calls(Agent.Lock)))
+//@   ensures [flag-follows-the-underlying-agent] !old(s.locked) ==> (calls(Agent.Lock) == old(calls(Agent.Lock)) + 1 &&
+//@     arg(Agent.Lock, old(calls(Agent.Lock)), 1) == passphrase && result == ret(Agent.Lock, old(calls(Agent.Lock)), 0) &&
+//@     (s.locked <==> result == nil))
+
+//@ func (*Server).Unlock(s, passphrase)
+//@   requires s != nil && inv(s) && unheld(s)
+//@   modifies mstate(addrof(s.mu)), s.locked
+//@   ensures unheld(s)
+//@   ensures [unlock-needs-a-locked-agent] !old(s.locked) ==> (result == errAgentUnlocked && !s.locked && calls(Agent.Unlock) == old(calls(Agent.Unlock)))
+//@   ensures [flag-follows-the-underlying-agent] old(s.locked) ==> (calls(Agent.Unlock) == old(calls(Agent.Unlock)) + 1 &&
+//@     arg(Agent.Unlock, old(calls(Agent.Unlock)), 1) == passphrase && result == ret(Agent.Unlock, old(calls(Agent.Unlock)), 0) &&
+//@     (s.locked <==> result != nil))
+
+//@ func (*Server).RemoveAll(s)
+//@   requires s != nil && inv(s) && unheld(s)
+//@   modifies mstate(addrof(s.mu)), s.certs, s.upstreamSSHCACertCache
+//@   ensures unheld(s) && inv(s)
+//@   ensures [locked-refuses] old(s.locked) ==> (result == errAgentLocked && calls(Agent.RemoveAll) == old(calls(Agent.RemoveAll)) &&
+//@     s.certs == old(s.certs) && s.upstreamSSHCACertCache == old(s.upstreamSSHCACertCache))
+//@   ensures [both-tables-emptied] !old(s.locked) ==> (fresh(s.certs) && fresh(s.upstreamSSHCACertCache) &&
+//@     forall(h#hashcode, true, !(h in dom(s.certs)) && !(h in dom(s.upstreamSSHCACertCache))) &&
+//@     calls(Agent.RemoveAll) == old(calls(Agent.RemoveAll)) + 1 && result == ret(Agent.RemoveAll, old(calls(Agent.RemoveAll)), 0))
+
+//@ func (*Server).Extension(s, extensionType, contents)
+//@   requires s != nil && inv(s) && unheld(s)
+//@   modifies mstate(addrof(s.mu))
+//@   ensures unheld(s)
+
+//@ # ---------------------------------------------------------------- C20: per-code condition variables
 //@ func (*Server).Broadcast(s, msg)
 //@   flag logged
 //@   requires s != nil
-//@   modifies all
+//@   requires forall(i, 0 <= i && i < 40, s.conds[i] != nil && s.conds[i].L != nil && mstate(pl(s.conds[i].L)) == 0)
+//@   modifies mstate(pl(s.conds[msg % 40].L))
 //@   ensures result == nil
+//@   ensures [exactly-that-code-is-woken] msg < 40 ==> (calls(Cond.Broadcast) == old(calls(Cond.Broadcast)) + 1 &&
+//@     arg(Cond.Broadcast, old(calls(Cond.Broadcast)), 0) == s.conds[msg] && calls(Cond.Signal) == old(calls(Cond.Signal)) &&
+//@     mstate(pl(s.conds[msg].L)) == 0)
+//@   ensures [out-of-range-is-a-no-op] msg >= 40 ==> (calls(Cond.Broadcast) == old(calls(Cond.Broadcast)) && calls(Locker.Lock) == old(calls(Locker.Lock)))
+//@   ensures calls(Cond.Wait) == old(calls(Cond.Wait))
+
+//@ func (*Server).Wait(s, msg)
+//@   requires s != nil
+//@   requires forall(i, 0 <= i && i < 40, s.conds[i] != nil && s.conds[i].L != nil && mstate(pl(s.conds[i].L)) == 0)
+//@   modifies mstate(pl(s.conds[msg % 40].L))
+//@   ensures result == nil
+//@   ensures [waits-on-that-code-only] msg < 40 ==> (calls(Cond.Wait) == old(calls(Cond.Wait)) + 1 &&
+//@     arg(Cond.Wait, old(calls(Cond.Wait)), 0) == s.conds[msg] && mstate(pl(s.conds[msg].L)) == 0)
+//@   ensures [out-of-range-returns-at-once] msg >= 40 ==> (calls(Cond.Wait) == old(calls(Cond.Wait)) && calls(Locker.Lock) == old(calls(Locker.Lock)))
+//@   ensures calls(Cond.Broadcast) == old(calls(Cond.Broadcast)) && calls(Cond.Signal) == old(calls(Cond.Signal))
